@@ -137,6 +137,22 @@ def lam_of(cfg):
     return np.where(i <= j, up, low)
 
 
+def beta_of(cfg):
+    """the switching cost of a configuration: cfg["beta"] (scalar) or, with cfg["beta_vec"] in {"ramp", "random", "const"},
+    a deterministic per-pair vector with one entry per stacked point (entry i prices the pair (i, i+1))"""
+    kind = cfg.get("beta_vec")
+    if not kind:
+        return cfg.get("beta", 5.0)
+    n = sum(T - cfg["W"] + 1 for T in cfg["lengths"])
+    base = float(cfg.get("beta", 5.0))
+    if kind == "const":
+        return np.full(n, base)
+    if kind == "ramp":
+        return base * (0.25 + np.arange(n) / max(1, n - 1) * 3.0)
+    r = np.random.default_rng(cfg.get("data_seed", 0) + 17)
+    return base * r.uniform(0.1, 4.0, size=n)
+
+
 def traced_run(cfg, extra_patches=None):
     """cfg keys: N, lengths, W, K, beta, lam, limit, m, biased, eps, joint(bool), data_seed, rng_seed, regimes.
     returns a dict (picklable)"""
@@ -182,7 +198,7 @@ def traced_run(cfg, extra_patches=None):
     np.random.seed(cfg["rng_seed"])
     random.seed(cfg["rng_seed"])
     kw = dict(window_size=cfg["W"], num_clusters=cfg["K"], sparsity_weight=lam_of(cfg),
-              label_switching_cost=cfg.get("beta", 5.0), iteration_limit=cfg.get("limit", 20),
+              label_switching_cost=beta_of(cfg), iteration_limit=cfg.get("limit", 20),
               min_meaningful_covariance=cfg.get("eps", 0), num_processors=cfg.get("procs", 1),
               min_cluster_size=cfg.get("m", 2), biased_covariance=cfg.get("biased", False))
     out = {"cfg": cfg, "series": [s.copy() for s in series], "events": events, "tasks": tasks, "error": None, "result": None}
@@ -226,9 +242,9 @@ def traced_run(cfg, extra_patches=None):
 
 def report_errors(ctx, runs):
     """Every configuration of the shared grids completes on the tree the checks were validated on.  A run that raises is
-    reported with its configuration as the concrete input - except the two library errors a legitimate change of the
-    random initialisation can bring about (donor shortage: RuntimeError; singular fit: LinAlgError), which only make the
-    run one that 'does not complete'."""
+    reported with its configuration as the concrete input - except the library's own ways of giving up, which a different
+    random initialisation can bring about (donor shortage: RuntimeError; singular fit: LinAlgError; the mixture model
+    failing or leaving a component empty), which only make the run one that 'does not complete'."""
     seen = ctx.notes.setdefault("_reported_run_errors", [])
     for r in runs:
         e = r.get("error")
@@ -238,7 +254,10 @@ def report_errors(ctx, runs):
         if key in seen:
             continue
         seen.append(key)
-        if (e.startswith("RuntimeError") and "donor" in e.lower()) or e.startswith("LinAlgError"):
+        legit = ((e.startswith("RuntimeError") and "donor" in e.lower()) or e.startswith("LinAlgError")
+                 or "Fitting the mixture model failed" in e               # scikit-learn's initialisation gives up (degenerate scales)
+                 or "Cluster needs at least one point" in e)              # the initialisation left a mixture component empty
+        if legit:
             ctx.notes.setdefault("runs_not_completed", []).append(e[:80])
             continue
         ctx.violation("monitor", "an end-to-end run raised instead of returning a result: %s" % e[:200], {"case": {"cfg": r["cfg"]}, "error": e})
